@@ -8,7 +8,7 @@ from ..effects import MUTATING
 from ..astutil import dict_entries, dotted, get_arg, derived, norm, enclosing, names_in, defs_of
 from ..srcmodel import own_nodes, AnalysisError
 from .C17 import find_committer, find_appenders, subarray_role, d3_two_file_order
-from .C10 import find_step
+from .C10 import find_step, step_params
 from .C09 import d3_checker
 
 EXPLANATION = (
@@ -63,15 +63,17 @@ def run(ctx):
 
 
 def d1_contiguity(ctx, RA, step, appenders):
-    sparam = [p for p in step.params if p != 'self'][-1]       # start offset parameter
+    sparam = step_params(step)[-1]       # start offset parameter
     n = 0
     for f in RA.all_funcs():
         for node, cal in ctx.E.callees(f):
             if cal is not step or not isinstance(node, ast.Call):
                 continue
             n += 1
-            ps = [p for p in step.params if p != 'self']
-            a = get_arg(node, ps.index(sparam), sparam)
+            ps = step_params(step)
+            # positional index at the call site: a bound method call leaves out the object, a plain function call does not
+            off = 0 if isinstance(node.func, ast.Attribute) and step.cls is not None else 1
+            a = get_arg(node, ps.index(sparam) + off, sparam)
             # decompose a + b + ...
             terms = []
 
